@@ -52,8 +52,12 @@ def strip_guard(x):
 def rounding_guarded(t):
     """every ceil/floor in t is applied to a guarded quotient (possibly plus an integer)"""
     for s in walk(t):
-        if isinstance(s, Op) and s.op in ("py_ceil", "py_floor"):
+        if isinstance(s, Op) and s.op == "floordiv":
+            return False  # a // b of floats truncates the raw quotient
+        if isinstance(s, Op) and s.op in ("py_ceil", "py_floor", "py_int"):
             a = s.args[0]
+            if s.op == "py_int" and isinstance(a, Op) and a.op in ("py_ceil", "py_floor", "py_round"):
+                continue  # int() of an integer-valued float
             parts = list(a.args) if isinstance(a, Op) and a.op == "add" else [a]
             quot = [q for q in parts if not (isinstance(q, int) and not isinstance(q, bool))]
             if not quot or not all(is_guard(q) for q in quot):
@@ -160,10 +164,10 @@ def forward_start_index_hazard(ctx, run, rule):
         raise AnalysisError("anchor vanished: EuropeanForwardStartOption._start_index")
     dd = Obj("pfhedge.instruments.derivative.cliquet.EuropeanForwardStartOption", "deriv")
     val = single(interp.explore(si, [], {}, self_obj=dd))["value"]
-    hazard = any(isinstance(s, Op) and s.op in ("py_floor", "py_ceil") for s in walk(val)) and not rounding_guarded(val)
+    hazard = any(isinstance(s, Op) and s.op in ("py_floor", "py_ceil", "py_int", "floordiv") for s in walk(val)) and not rounding_guarded(val)
     run.oblige(rule, "EuropeanForwardStartOption._start_index", not hazard, str(val))
     if hazard:
-        run.fail(Finding("C12.R5", si.qualname, hazard_key(val), "floor of an unguarded float quotient: a start time that is an exact multiple of dt up to rounding selects the previous step",
+        run.fail(Finding(rule, si.qualname, hazard_key(val), "floor of an unguarded float quotient: a start time that is an exact multiple of dt up to rounding selects the previous step",
                          file=str(prog.modules[si.module].path), line=si.node.lineno, witness="start=4.3, dt=0.1 -> index 42 (43 expected)"))
 
 
